@@ -42,6 +42,41 @@ def run(pid, corpus_mod, tier, seed, level="translation_validation", extra_assum
     return cli.emit(pid, tier, seed, level, coverage, v, time.time() - t0, assumptions, harness)
 
 
+def rejection_clauses(rejections, prefix):
+    """programs the documentation calls ill-formed: the real library must raise the documented
+    exception *when the pipeline is built* on both backends, and REF must refuse them too.
+    rejections: [(name, sources, prog, exception-name | tuple of names)].  No value quantifier:
+    evaluated on the real library."""
+    from .. import real as RL
+    from .. import ref as R
+    from ..e1 import Cfg, Template, make_inputs
+
+    viol, n = [], 0
+    for name, sources, prog, exc in rejections:
+        excs = (exc,) if isinstance(exc, str) else tuple(exc)
+        frames = {nm: RL.dummy_frame(schema, k) for k, (nm, schema) in enumerate(sources)}
+        for be in ("polars", "sqlite"):
+            n += 1
+            tbls = RL.polars_tables(sources, frames) if be == "polars" else RL.sqlite_tables(sources, RL.sqlite_engine(sources, frames))
+            got = "accepted"
+            try:
+                prog(RL.RealAPI, *tbls)
+            except Exception as e:  # noqa: BLE001
+                got = type(e).__name__
+            if got not in excs:
+                viol.append({"key": f"{prefix}.reject.{name}.{be}", "what": f"expected {' / '.join(excs)} when the pipeline is built, got {got}", "payload": {"clause": name, "backend": be}})
+        n += 1
+        tp = Template("x", sources, prog)
+        syms = make_inputs(tp, Cfg())
+        w = R.World()
+        try:
+            prog(R.RefAPI, *[R.RTable.source(w, nm, syms[nm]) for nm, _ in sources])
+            viol.append({"key": f"{prefix}.reject.{name}.ref", "what": "REF accepts a program the documentation calls ill-formed (harness inconsistency)", "payload": {}})
+        except R.RefError:
+            pass
+    return viol, n
+
+
 def replay(pid, corpus_mod, path):
     """re-runs a recorded witness on the real engines (no solver involved)"""
     from ..e1 import Cfg, run_real, same_rows
